@@ -28,8 +28,8 @@ TOLERANCES = {
 }
 ASSUMPTIONS = ["loop model of vf.oracles.gridmodel (numbering convention of C07)"]
 FLOORS = {
-    "quick": {"small_physical_units": 100, "cell_to_face_buffer_refilled": 500, "tangential_default_form_is_blockwise": 300, "cell_to_face_integer_fields": 500, "reconstruction_object_reused": 500, "scalar_voxel_size": 100, "grid_rejudged_after_operators": 300, "divergence_matrix": 500, "face_to_cell_model": 1500, "cell_to_face_model": 3000, "tangential_constant": 300},
-    "thorough": {"small_physical_units": 1000, "cell_to_face_buffer_refilled": 5000, "tangential_default_form_is_blockwise": 3000, "cell_to_face_integer_fields": 5000, "reconstruction_object_reused": 5000, "scalar_voxel_size": 1000, "grid_rejudged_after_operators": 3000, "divergence_matrix": 5000, "face_to_cell_model": 15000, "cell_to_face_model": 30000, "tangential_constant": 3000},
+    "quick": {"cell_to_face_tiny_fields": 500, "small_physical_units": 100, "cell_to_face_buffer_refilled": 500, "tangential_default_form_is_blockwise": 300, "cell_to_face_integer_fields": 500, "reconstruction_object_reused": 500, "scalar_voxel_size": 100, "grid_rejudged_after_operators": 300, "divergence_matrix": 500, "face_to_cell_model": 1500, "cell_to_face_model": 3000, "tangential_constant": 300},
+    "thorough": {"cell_to_face_tiny_fields": 5000, "small_physical_units": 1000, "cell_to_face_buffer_refilled": 5000, "tangential_default_form_is_blockwise": 3000, "cell_to_face_integer_fields": 5000, "reconstruction_object_reused": 5000, "scalar_voxel_size": 1000, "grid_rejudged_after_operators": 3000, "divergence_matrix": 5000, "face_to_cell_model": 15000, "cell_to_face_model": 30000, "tangential_constant": 3000},
 }
 
 
@@ -187,6 +187,13 @@ def run_shard(spec, R):
                 if ok and ok2:
                     R.check(close(fq2, M.cell_to_face([M.flat(buf)] * dim, mode), 4.0), "cell_to_face_model", lambda: {**case, "kind": "buffer refilled in place between two calls", "mode": mode}, group="buffer_refilled")
                     R.count("cell_to_face_buffer_refilled")
+            # cell fields of very small magnitude (permeabilities in square metres): the means are relative quantities
+            tiny = (rng.random(shape) + 0.1) * 1e-12
+            for mode in ("arithmetic", "harmonic"):
+                ok, fqt = R.guarded("cell_to_face_average", lambda: darsia.cell_to_face_average(grid, tiny, mode))
+                if ok:
+                    R.check(close(fqt, M.cell_to_face([M.flat(tiny)] * dim, mode), 1.2e-12), "cell_to_face_model", lambda: {**case, "kind": "field of magnitude 1e-12", "mode": mode}, group="tiny_fields")
+                    R.count("cell_to_face_tiny_fields")
             # integer-valued cell fields (label-based weights): the means are the means of the numbers
             it_field = rng.integers(1, 6, size=shape)
             ikinds = {"int_scalar": (it_field, [M.flat(it_field.astype(float))] * dim)}
